@@ -148,6 +148,16 @@ def audit_sources(files):
         src = strip_comments(open(os.path.join(COQ, f)).read())
         for m in re.finditer(r"\b(Admitted|admit|Axiom|Axioms|Parameter|Parameters|Conjecture|Admit Obligations|Unset Guard Checking|bypass_check|Unset Positivity Checking|Unset Universe Checking)\b", src):
             bad.append("%s: %s" % (f, m.group(1)))
+        # Variable / Hypothesis / Context outside a Section declares an axiom
+        depth = 0
+        for line in src.splitlines():
+            t = line.strip()
+            if re.match(r"(Section|Module)\s+\w+", t) and not re.match(r"Module\s+\w+\s*:=", t):
+                depth += 1
+            elif re.match(r"End\s+\w+\s*\.", t):
+                depth = max(0, depth - 1)
+            elif depth == 0 and re.match(r"(Variable|Variables|Hypothesis|Hypotheses|Context)\b", t):
+                bad.append("%s: %s outside a Section" % (f, t.split()[0]))
     return bad
 
 
